@@ -1,4 +1,4 @@
-from props_common import TRUSTED_COMMON
+from props_common import GEN_ITERS_TRUST, GEN_STORE_TRUST, TRUSTED_COMMON
 
 
 def nontrivial(prog_lines, answer_lines):
@@ -20,10 +20,15 @@ def algo_histogram(ctx):
 
 
 PROP = {
+    "generators": [{"script": "gen_iters.py"}, {"script": "gen_store.py"}],
     "hooks": ["algo_histogram"],
-    "lean_targets": ["MultiProofs.C03"],
+    "lean_targets": ["MultiProofs.C03", "MultiProofs.GenTieIter", "MultiProofs.GenTieStore"],
     "lean_module": "MultiProofs.C03",
     "theorems": [
+        "Multi.GenTieIter.array_iterator_is_the_code",
+        "Multi.GenTieIter.elements_iterator_is_the_code",
+        "Multi.GenTieStore.assignment_is_the_code",
+        "Multi.GenTieStore.comparison_is_the_code",
         "Multi.C03.proxy_refines_seq",
         "Multi.C03.elements_refines_seq",
         "Multi.C03.positions_are_integers",
@@ -51,7 +56,7 @@ PROP = {
         "Multi.C03.algo_accumulate_on_elements",
     ],
     "harnesses": [{"name": "algos", "src": "algos.cpp", "flags": ["-O0"], "modes": ["all"], "programs": {"quick": 16000, "thorough": 800000}, "driver": "mmdrv_store"}],
-    "trusted_base": TRUSTED_COMMON + [
+    "trusted_base": TRUSTED_COMMON + GEN_ITERS_TRUST + GEN_STORE_TRUST + [
         "MultiProofs/AlgoProgs.lean: hand transcriptions of 14 libstdc++ loops (g++ 12 bits/stl_algobase.h, stl_algo.h, stl_numeric.h) as interface programs; that libstdc++ runs these programs is trusted, validated by the differential run",
         "libstdc++'s algorithms are NOT verified: that each of the 20 listed algorithms interacts with its range only through the interface of MultiProofs/SeqSpec.lean (iterator arithmetic, read, write, assign, swap) is an assumption, validated by the differential run against std::vector of independent values",
         "for the C03 stream the Lean driver only echoes `algo ok`: the oracle is the reference computed inside harness/algos.cpp (same std:: algorithm on std::vector<int> / std::vector<multi::array<int, D-1>>), as DESIGN §6 C03 prescribes",
